@@ -193,9 +193,32 @@ func (l *List) M__iter__() (Object, error) {
 	return NewIterator(l), nil
 }
 
+// Converts key to an index into the list
+//
+// The conversion can run Python code which resizes the list, so the
+// bounds are checked after it
+func (l *List) index(key Object) (int, error) {
+	i, err := IndexInt(key)
+	if err != nil {
+		return 0, err
+	}
+	return IndexIntCheck(Int(i), len(l.Items))
+}
+
+// As Slice.GetIndices for the list, safe against index conversions
+// which resize the list.  Returns the converted slice too.
+func (l *List) sliceIndices(slice *Slice) (resolved *Slice, start, stop, step, slicelength int, err error) {
+	resolved, err = slice.Resolved()
+	if err != nil {
+		return
+	}
+	start, stop, step, slicelength, err = resolved.GetIndices(len(l.Items))
+	return
+}
+
 func (l *List) M__getitem__(key Object) (Object, error) {
 	if slice, ok := key.(*Slice); ok {
-		start, _, step, slicelength, err := slice.GetIndices(len(l.Items))
+		_, start, _, step, slicelength, err := l.sliceIndices(slice)
 		if err != nil {
 			return nil, err
 		}
@@ -205,7 +228,7 @@ func (l *List) M__getitem__(key Object) (Object, error) {
 		}
 		return newList, nil
 	}
-	i, err := IndexIntCheck(key, len(l.Items))
+	i, err := l.index(key)
 	if err != nil {
 		return nil, err
 	}
@@ -214,7 +237,7 @@ func (l *List) M__getitem__(key Object) (Object, error) {
 
 func (l *List) M__setitem__(key, value Object) (Object, error) {
 	if slice, ok := key.(*Slice); ok {
-		start, stop, step, slicelength, err := slice.GetIndices(len(l.Items))
+		resolved, start, stop, step, slicelength, err := l.sliceIndices(slice)
 		if err != nil {
 			return nil, err
 		}
@@ -227,6 +250,13 @@ func (l *List) M__setitem__(key, value Object) (Object, error) {
 			newItems = newItems.Copy()
 		}
 		if step == 1 {
+			// Evaluating the right hand side may have resized the list
+			if start > len(l.Items) {
+				start = len(l.Items)
+			}
+			if stop > len(l.Items) {
+				stop = len(l.Items)
+			}
 			if stop < start {
 				stop = start
 			}
@@ -237,6 +267,8 @@ func (l *List) M__setitem__(key, value Object) (Object, error) {
 			l.Items = append(l.Items[:start], newItems...)
 			l.Items = append(l.Items, tail...)
 		} else {
+			// Evaluating the right hand side may have resized the list
+			start, _, step, slicelength, _ = resolved.GetIndices(len(l.Items))
 			if len(newItems) != slicelength {
 				return nil, ExceptionNewf(ValueError, "attempt to assign sequence of size %d to extended slice of size %d", len(newItems), slicelength)
 			}
@@ -245,7 +277,7 @@ func (l *List) M__setitem__(key, value Object) (Object, error) {
 			}
 		}
 	} else {
-		i, err := IndexIntCheck(key, len(l.Items))
+		i, err := l.index(key)
 		if err != nil {
 			return nil, err
 		}
@@ -262,7 +294,7 @@ func (a *List) DelItem(i int) {
 // Removes items from a list
 func (a *List) M__delitem__(key Object) (Object, error) {
 	if slice, ok := key.(*Slice); ok {
-		start, stop, step, slicelength, err := slice.GetIndices(len(a.Items))
+		_, start, stop, step, slicelength, err := a.sliceIndices(slice)
 		if err != nil {
 			return nil, err
 		}
@@ -281,7 +313,7 @@ func (a *List) M__delitem__(key Object) (Object, error) {
 			}
 		}
 	} else {
-		i, err := IndexIntCheck(key, len(a.Items))
+		i, err := a.index(key)
 		if err != nil {
 			return nil, err
 		}
